@@ -1,43 +1,328 @@
 /-
   C01 — the client view converges to the device's true property state.
 
-  Model of the deployment: Indi/Model/Sys.lean (drivers + router fan-out + wire + client mirrors; a network peer
-  reads BLOB updates from its BLOB connection and the rest from its control connection, interleaved in any way).
-  Spec: Indi/Spec/Sys.lean (`synced`, `allSynced`) - the predicate the check evaluates on the real deployment.
+  Model: Indi/Model/Sys.lean (drivers + router fan-out + wire + client mirrors; after every operation all traffic
+  is delivered; a network peer reads BLOB updates from its BLOB connection and the rest from its control
+  connection, interleaved in any way: `outcomes`, `nextOk`).
+  Spec:  Indi/Spec/Sys.lean (`synced`, `peerSynced`, `allSynced`) - the very predicate the check evaluates on the
+  real deployment's observed drivers and mirrors.
+  Proofs: Indi/Proofs/Sys.lean (Sys1 … Sys12, SysWire, SysB64).
 
-  INTERIM STATE of the proof side: the links of the chain are proved separately,
-    * `Dev.C07_response`     a handshake is answered by exactly the definitions of the enabled properties,
-    * `Dev.step_wf`          every driver operation keeps the driver well-formed,
-    * `Dev.C07_emitted_valid` every definition/update a driver emits is read back by the library's own parser
-                              unchanged up to normalisation,
-    * `C03_roundtrip`        so is every valid message,
-    * `Cli.C15_stream`       the client mirror tracks a definition/update/deletion stream exactly,
-  and are re-exported here; the composed statement over `Sys.nextOk` (`C01_start`, `C01_step`, `C01_converges`)
-  is stated in DESIGN.md and is the next proof to land in this file.
+  The theorems are proved for ALL interleavings (`nextOk`).  Relative to the first draft of the statements the
+  hypotheses were completed as follows; every addition is needed — the statement without it is false, see the
+  counterexamples at the end of this file (each evaluated by the kernel) and NOTES.md:
+
+    worldOk   + BLOB values held by a driver carry a format                     (C01_needs_format)
+              + … and consist of bytes                                           (C01_needs_bytes)
+              + the enabled elements of a property have distinct names           (C01_needs_distinct_elements)
+    opInScope + BLOB values assigned / written carry a format and are bytes      (C01_needs_assign_format,
+                                                                                  C01_needs_assign_bytes, C01_needs_write_format)
+    peersOk   (new, `C01_step` only) a mirror is a dict of dicts: no property name twice under a device
+                                                                                 (C01_needs_dict_mirror)
 -/
 import Indi.Spec.Sys
-import Indi.Properties.DevA
-import Indi.Properties.DevB
-import Indi.Properties.C03
-import Indi.Properties.C15
+import Indi.Generated.Registry
+import Indi.Proofs.Sys
 
 namespace Indi.Sys
-open Indi Indi.Dev Indi.Cli
+open Indi Indi.Dev Indi.Cli Indi.Spec.Sys
 
-theorem C01_link_handshake (d : Device) (hwf : Spec.Dev.WF d = true) (m : Msg) (hm : m.tag = s "getProperties") :
-    Spec.Dev.c07Holds d ((alookup (s "name") m.fields).getD none) (fromClient d m).msgs = true :=
-  Dev.C07_response d hwf m hm
+abbrev reg := Generated.registry
 
-theorem C01_link_wf (d : Device) (hwf : Spec.Dev.WF d = true) (op : Dev.Op) : Spec.Dev.WF (Dev.step d op).dev = true :=
-  Dev.step_wf d hwf op
+/-- a value that, if it is a BLOB, is a proper `values.BLOB`: its format is a `str` (not `None`) and its content `bytes` -/
+def blobOk : Value → Bool
+  | .blob bs f => f.isSome && bs.all fun b => decide (b < 256)
+  | _ => true
 
-theorem C01_link_emitted (d : Device) (hwf : Spec.Dev.WF d = true) (op : Dev.Op)
-    (hfd : Dev.devFormats d = true) (hfo : Dev.opFormats op = true) :
-    ∀ m ∈ (Dev.step d op).msgs, Spec.Dev.readsBack Generated.registry m = true :=
-  Dev.C07_emitted_valid d hwf op hfd hfo
+/-- operations in C01's scope: value assignments, state changes, enabling/disabling of properties and groups,
+client writes, handshakes (for everything, a device, a property).  Element-level enabling publishes nothing (and is
+not in the property); raw client messages enter through `.write` / `.handshake`.
+A BLOB value assigned by the driver must be a proper BLOB (`blobOk`: without a format the update it publishes is
+not a valid `setBLOBVector` and network clients drop it - `C01_needs_assign_format`; the byte condition is a typing
+invariant of the model, Python `bytes` - `C01_needs_assign_bytes`); a BLOB value written by a client must carry a
+format (an in-process client hands the message over as an object: `C01_needs_write_format`). -/
+def opInScope : Op → Bool
+  | .driver _ (.enableElem _ _) => false
+  | .driver _ (.client _) => false
+  | .driver _ (.assign _ v) => blobOk v
+  | .driver _ (.setValue _ v) => blobOk v
+  | .write _ _ _ writes => writes.all fun w => match w.2 with | .blob _ none => false | _ => true
+  | _ => true
 
-theorem C01_link_wire (m : Msg) (h : Spec.MsgValid.valid Generated.registry m = true) :
-    Spec.Dev.readsBack Generated.registry m = true :=
-  C03_roundtrip m h
+/-- the properties the theorem speaks about -/
+def vecOk' (v : Vec) : Bool :=
+  -- every BLOB value held carries a format and consists of bytes (else its setBLOBVector is dropped / decoded to
+  -- something else by network clients: `C01_needs_format`, `C01_needs_bytes`)
+  (v.elems.all fun e => blobOk e.value) &&
+  -- the enabled elements have distinct names (the client keeps a dict by name: `C01_needs_distinct_elements`)
+  decide ((v.elems.filter (·.enabled)).map (·.d.name)).Nodup
+
+/-- the deployments the theorem speaks about (decidable): -/
+def worldOk (devs : List Device) : Bool :=
+  -- well-formed drivers (`Spec.Dev.WF`: values of the element's kind, valid states/perms/formats, distinct property names)
+  devs.all (fun d => Spec.Dev.WF d) &&
+  -- distinct device names
+  decide (devs.map (·.name)).Nodup &&
+  -- BLOB values are proper BLOBs, enabled elements have distinct names
+  devs.all (fun d => d.groups.all fun g => g.vecs.all vecOk')
+
+/-- the mirrors `C01_step` speaks about: Python dicts - a device entry holds a property name at most once
+(the model's association lists could hold it twice; then `delProperty` removes one entry only: `C01_needs_dict_mirror`).
+Every mirror built by `processMessage` from the empty one is like that (`C01_step` re-establishes it). -/
+def peersOk (peers : List Peer) : Bool :=
+  peers.all fun p => p.mirror.all fun nd => decide (nd.2.vecs.map (·.1)).Nodup
+
+/-! ### glue between the decidable hypotheses and the lemma library -/
+
+theorem blobOk_iff (v : Value) : blobOk v = true ↔ DevB.hasFormat v = true ∧ SysP.bytesOk v = true := by
+  cases v with
+  | blob bs f => cases f <;> simp [blobOk, DevB.hasFormat, SysP.bytesOk]
+  | _ => simp [blobOk, DevB.hasFormat, SysP.bytesOk]
+
+theorem vecOk'_iff (v : Vec) (hok : Spec.Dev.vecOk v = true) : vecOk' v = true ↔ SysP.VG v := by
+  simp only [vecOk', Bool.and_eq_true, List.all_eq_true, decide_eq_true_eq]
+  constructor
+  · rintro ⟨h1, h2⟩
+    refine ⟨hok, ?_, ?_, ?_⟩
+    · simp only [DevB.vecFmt, List.all_eq_true]
+      exact fun e he => ((blobOk_iff _).1 (h1 e he)).1
+    · simp only [SysP.vecBytes, List.all_eq_true]
+      exact fun e he => ((blobOk_iff _).1 (h1 e he)).2
+    · simp only [SysP.vecNames, SysP.enabledElems]; exact decide_eq_true h2
+  · intro h
+    refine ⟨?_, ?_⟩
+    · intro e he
+      have h1 := h.fmt
+      have h2 := h.bytes
+      simp only [DevB.vecFmt, List.all_eq_true] at h1
+      simp only [SysP.vecBytes, List.all_eq_true] at h2
+      exact (blobOk_iff _).2 ⟨h1 e he, h2 e he⟩
+    · have := h.names
+      simp only [SysP.vecNames, SysP.enabledElems] at this; exact of_decide_eq_true this
+
+theorem worldOk_iff (devs : List Device) : worldOk devs = true ↔ SysP.DevsOK devs := by
+  simp only [worldOk, Bool.and_eq_true, List.all_eq_true, decide_eq_true_eq, SysP.DevsOK, SysP.DevOK]
+  constructor
+  · rintro ⟨⟨h1, h2⟩, h3⟩
+    refine ⟨fun d hd => ⟨h1 d hd, ?_⟩, h2⟩
+    intro gi vi g v hg
+    obtain ⟨hgm, hvm⟩ := DevB.getVec_mem hg
+    have hg' := List.mem_of_getElem? hgm
+    have hv' := List.mem_of_getElem? hvm
+    exact (vecOk'_iff v (DevBResp.devOk_of_WF (h1 d hd) gi vi g v hg)).1 (h3 d hd g hg' v hv')
+  · rintro ⟨h1, h2⟩
+    refine ⟨⟨fun d hd => (h1 d hd).1, h2⟩, ?_⟩
+    intro d hd g hg v hv
+    obtain ⟨gi, hgi⟩ := List.mem_iff_getElem?.1 hg
+    obtain ⟨vi, hvi⟩ := List.mem_iff_getElem?.1 hv
+    have hgv : getVec d gi vi = some (g, v) := Dev.getVec_eq_some.2 ⟨hgi, hvi⟩
+    exact (vecOk'_iff v (DevBResp.devOk_of_WF (h1 d hd).1 gi vi g v hgv)).2 ((h1 d hd).2 gi vi g v hgv)
+
+theorem peersOk_iff (peers : List Peer) : peersOk peers = true ↔ SysP.PeersWf peers := by
+  simp only [peersOk, List.all_eq_true, decide_eq_true_eq, SysP.PeersWf, SysP.VWf]
+
+theorem opInScope_ok {op : Op} (h : opInScope op = true) : SysP.OpOK op := by
+  cases op with
+  | driver di o =>
+    cases o with
+    | assign a v =>
+      simp only [opInScope] at h
+      simp only [SysP.OpOK, SysP.devOpOk, Bool.and_eq_true]
+      exact (blobOk_iff v).1 h
+    | setValue a v =>
+      simp only [opInScope] at h
+      simp only [SysP.OpOK, SysP.devOpOk, Bool.and_eq_true]
+      exact (blobOk_iff v).1 h
+    | state g v st => rfl
+    | enableVec g v b => rfl
+    | enableGroup g b => rfl
+    | enableElem a b => cases h
+    | client m => cases h
+  | write ci dev prop writes =>
+    simp only [opInScope, List.all_eq_true] at h
+    intro w hw
+    have := h w hw
+    cases hv : w.2 with
+    | blob bs f => rw [hv] at this; cases f <;> simp_all [SysP.cvalFmt]
+    | none => rfl
+    | text t => rfl
+  | handshake ci dev name => trivial
+
+/-! ### the theorems -/
+
+/-- **C01** (initial convergence): once every peer has connected and performed the getProperties handshake, every
+peer sees every device as it is -/
+theorem C01_start (devs : List Device) (kinds : List (Bool × Bool × Bool)) (h : worldOk devs = true) :
+    allSynced (start reg devs kinds) = true :=
+  (SysP.start_synced devs kinds ((worldOk_iff devs).1 h)).1
+
+/-- **C01** (preservation): from a deployment in which every peer sees every device as it is, any operation in
+scope, followed by delivery of all traffic under ANY interleaving of each peer's two connections, leads to a
+deployment in which every peer again sees every device as it is (and which is again well-formed) -/
+theorem C01_step (w w' : World) (op : Op) (hok : worldOk w.devs = true)
+    (hm : peersOk w.peers = true)          -- mirrors are dicts (see `peersOk`)
+    (hs : allSynced w = true)
+    (hop : opInScope op = true) (hn : nextOk reg w op w' = true) :
+    allSynced w' = true ∧ worldOk w'.devs = true ∧ peersOk w'.peers = true := by
+  obtain ⟨h1, h2, h3⟩ := SysP.world_next ((worldOk_iff _).1 hok) ((peersOk_iff _).1 hm) hs (opInScope_ok hop) hn
+  exact ⟨h1, (worldOk_iff _).2 h2, (peersOk_iff _).2 h3⟩
+
+/-- the deployments reachable from the start by operations in scope, under any delivery schedules -/
+inductive Reach (devs : List Device) (kinds : List (Bool × Bool × Bool)) : World → Prop
+  | start : Reach devs kinds (start reg devs kinds)
+  | step (w w' : World) (op : Op) : Reach devs kinds w → opInScope op = true → nextOk reg w op w' = true → Reach devs kinds w'
+
+/-- every reachable deployment is in sync, well-formed, and its mirrors are dicts -/
+theorem C01_invariant (devs : List Device) (kinds : List (Bool × Bool × Bool)) (h : worldOk devs = true)
+    (w : World) (hr : Reach devs kinds w) :
+    allSynced w = true ∧ worldOk w.devs = true ∧ peersOk w.peers = true := by
+  induction hr with
+  | start =>
+    obtain ⟨h1, h2, h3⟩ := SysP.start_synced devs kinds ((worldOk_iff devs).1 h)
+    exact ⟨h1, (worldOk_iff _).2 h2, (peersOk_iff _).2 h3⟩
+  | step w w' op _ hop hn ih =>
+    exact C01_step w w' op ih.2.1 ih.2.2 ih.1 hop hn
+
+/-- **C01**: after ANY sequence of driver-side updates and client-side writes, once all in-flight messages are
+delivered, every connected peer sees exactly the device's currently enabled properties, each with the device's
+current state, metadata and element values, and no others -/
+theorem C01_converges (devs : List Device) (kinds : List (Bool × Bool × Bool)) (h : worldOk devs = true)
+    (w : World) (hr : Reach devs kinds w) : allSynced w = true :=
+  (C01_invariant devs kinds h w hr).1
+
+/-! ### the hypotheses are satisfiable, and each added one is needed -/
+
+namespace Ex
+
+def elem (n : String) (v : Value) : Dev.Elem := { d := { name := s n, label := s n }, value := v, enabled := true }
+
+def blobVec (v : Value) : Vec :=
+  { name := s "B", label := s "B", kind := .blob, perm := some (s "rw"), timeout := some (s "0"), rule := none,
+    state := s "Idle", enabled := true, elems := [elem "b" v] }
+
+def textVec (es : List Dev.Elem) : Vec :=
+  { name := s "T", label := s "T", kind := .text, perm := some (s "rw"), timeout := some (s "0"), rule := none,
+    state := s "Idle", enabled := true, elems := es }
+
+def dev (vs : List Vec) : Device := { name := s "D", groups := [{ name := s "G", enabled := true, vecs := vs }] }
+
+/-- a network client (control + BLOB connection) -/
+def net : Bool × Bool × Bool := (true, false, false)
+/-- an in-process snooping client -/
+def snoop : Bool × Bool × Bool := (false, true, false)
+
+/-- the draft of `worldOk`: well-formed drivers with distinct names -/
+def worldOk₀ (devs : List Device) : Bool := devs.all (fun d => Spec.Dev.WF d) && decide (devs.map (·.name)).Nodup
+
+def ok : Str := s "Ok"
+
+/-- a network client that enabled BLOBs on its control connection as well (`enableBLOB Also`) -/
+def also : Bool × Bool × Bool := (true, false, true)
+
+/-- one device with a text and a BLOB property -/
+def good : Device := dev [textVec [elem "a" (.text (s "x")), elem "c" .none], blobVec (.blob [1, 2, 255] (some (s ".bin")))]
+
+end Ex
+
+open Ex in
+/-- the hypotheses are satisfiable by a non-trivial deployment (one device with a text and a BLOB property; a
+network peer, a snooping peer and a network peer with `enableBLOB Also`): it starts in sync and stays in sync under
+a state change that transfers the BLOB, a client write from the snooping peer and a write of a BLOB from the
+network peer (in-order schedule); the operations are in scope -/
+example :
+    worldOk [good] = true ∧
+    allSynced (start reg [good] [net, snoop, also]) = true ∧ peersOk (start reg [good] [net, snoop, also]).peers = true ∧
+    opInScope (.driver 0 (.state 0 1 (some ok))) = true ∧
+    opInScope (.write 1 (s "D") (s "T") [(s "a", .text (s " y "))]) = true ∧
+    opInScope (.write 0 (s "D") (s "B") [(s "b", .blob [7] (some (s ".x")))]) = true ∧
+    allSynced (run reg (start reg [good] [net, snoop, also])
+      [.driver 0 (.state 0 1 (some ok)), .write 1 (s "D") (s "T") [(s "a", .text (s " y "))],
+       .write 0 (s "D") (s "B") [(s "b", .blob [7] (some (s ".x")))]]) = true := by
+  decide +kernel
+
+open Ex in
+/-- `worldOk` needs "BLOB values carry a format": a driver holding `BLOB(b"\x01", None)` (accepted by `WF`) starts
+in sync (definitions carry no payload), but the `setBLOBVector` its next state change publishes has no `format`
+attribute, the network client's parser rejects it (`format` is a required keyword of oneBLOB) and the client keeps
+state `Idle` while the driver holds `Ok` -/
+theorem C01_needs_format :
+    let devs := [dev [blobVec (.blob [1] none)]]
+    let w := start reg devs [net]
+    let op : Op := .driver 0 (.state 0 0 (some ok))
+    worldOk₀ devs = true ∧ peersOk w.peers = true ∧ allSynced w = true ∧ opInScope op = true ∧
+      nextOk reg w op (step reg w op) = true ∧ allSynced (step reg w op) = false := by
+  decide +kernel
+
+open Ex in
+/-- `worldOk` needs "BLOB values consist of bytes" (a typing invariant of the model: a Python `bytes` cannot hold
+256): `B64.encode [256]` is the text of the byte 252, which is what the client then holds -/
+theorem C01_needs_bytes :
+    let devs := [dev [blobVec (.blob [256] (some (s ".x")))]]
+    let w := start reg devs [net]
+    let op : Op := .driver 0 (.state 0 0 (some ok))
+    worldOk₀ devs = true ∧ peersOk w.peers = true ∧ allSynced w = true ∧ opInScope op = true ∧
+      nextOk reg w op (step reg w op) = true ∧ allSynced (step reg w op) = false := by
+  decide +kernel
+
+open Ex in
+/-- `worldOk` needs "enabled elements of a property have distinct names": `defTextVector` lists both elements
+named `a`, the client's `{ch.name: ch for ch in children}` keeps one - already `C01_start` fails -/
+theorem C01_needs_distinct_elements :
+    let devs := [dev [textVec [elem "a" (.text (s "x")), elem "a" (.text (s "y"))]]]
+    worldOk₀ devs = true ∧ allSynced (start reg devs [net]) = false := by
+  decide +kernel
+
+open Ex in
+/-- `opInScope` needs "an assigned BLOB value carries a format": the client holds the BLOB transferred before,
+the driver assigns `BLOB(b"\x02", None)`, the update is not a valid `setBLOBVector`, the client keeps the old
+payload (the same with `set_value`) -/
+theorem C01_needs_assign_format :
+    let devs := [dev [blobVec (.blob [1] (some (s ".x")))]]
+    let w := step reg (start reg devs [net]) (.driver 0 (.state 0 0 (some ok)))
+    let op : Op := .driver 0 (.assign ⟨0, 0, 0⟩ (.blob [2] none))
+    let op' : Op := .driver 0 (.setValue ⟨0, 0, 0⟩ (.blob [2] none))
+    worldOk w.devs = true ∧ peersOk w.peers = true ∧ allSynced w = true ∧
+      nextOk reg w op (step reg w op) = true ∧ allSynced (step reg w op) = false ∧
+      nextOk reg w op' (step reg w op') = true ∧ allSynced (step reg w op') = false := by
+  decide +kernel
+
+open Ex in
+/-- `opInScope` needs "an assigned BLOB value consists of bytes" (model typing invariant, as `C01_needs_bytes`) -/
+theorem C01_needs_assign_bytes :
+    let devs := [dev [blobVec .none]]
+    let w := start reg devs [net]
+    let op : Op := .driver 0 (.assign ⟨0, 0, 0⟩ (.blob [300] (some (s ".x"))))
+    worldOk w.devs = true ∧ peersOk w.peers = true ∧ allSynced w = true ∧
+      nextOk reg w op (step reg w op) = true ∧ allSynced (step reg w op) = false := by
+  decide +kernel
+
+open Ex in
+/-- `opInScope` needs "a BLOB value written by a client carries a format": the in-process (snooping) client
+submits `newBLOBVector` with a `oneBLOB` whose format is `None` as an object (no parser in between), the driver
+stores `BLOB(b"\x02", None)` and publishes an update the network client cannot parse: it keeps the old payload.
+(The same write from the network client is rejected by the router's parser and changes nothing.) -/
+theorem C01_needs_write_format :
+    let devs := [dev [blobVec (.blob [1] (some (s ".x")))]]
+    let w := step reg (start reg devs [net, snoop]) (.driver 0 (.state 0 0 (some ok)))
+    let op : Op := .write 1 (s "D") (s "B") [(s "b", .blob [2] none)]
+    worldOk w.devs = true ∧ peersOk w.peers = true ∧ allSynced w = true ∧
+      nextOk reg w op (step reg w op) = true ∧ allSynced (step reg w op) = false := by
+  decide +kernel
+
+open Ex in
+/-- `C01_step` needs `peersOk`: a mirror (as an association list) that holds the property `T` twice under the
+device is `allSynced` with a driver whose `T` is enabled; when the driver disables `T`, `delProperty` removes one
+entry and the other one stays visible.  (A Python dict cannot be in that state; no reachable mirror is.) -/
+theorem C01_needs_dict_mirror :
+    let c : CVec := { kind := .text, name := some (s "T"), group := some (s "G"), label := some (s "T"),
+                      timestamp := none, message := none, state := some (s "Idle"), elems := [] }
+    let w : World := { devs := [dev [textVec []]],
+                       peers := [{ blobs := true, inproc := false,
+                                   mirror := [(some (s "D"), { vecs := [(some (s "T"), c), (some (s "T"), c)] })] }] }
+    let op : Op := .driver 0 (.enableVec 0 0 false)
+    worldOk w.devs = true ∧ allSynced w = true ∧ opInScope op = true ∧ peersOk w.peers = false ∧
+      nextOk reg w op (step reg w op) = true ∧ allSynced (step reg w op) = false := by
+  decide +kernel
 
 end Indi.Sys
+
